@@ -80,3 +80,67 @@ func VerifC05_slowstart() {
 		vrt.Assert(err != nil || b != nil, "C05/returns-backend-or-error")
 	}
 }
+
+// VerifC05_failreports: health events between selections. K events among "a failed request is
+// reported on backend i" (what BfeBackend.OnFail does: AddFailNum + UpdateStatus(threshold); several
+// in-flight requests may fail after the backend was already taken out), "a request succeeded"
+// (OnSuccess) and "the health checker brings backend i back" (SetRestart + SetAvail(true)); then a
+// selection with any algorithm returns. A per-backend lock left held shows as outcome `blocked`.
+func VerifC05_failreports() {
+	n := vrt.Range("n", 1, vrt.Param("N", 2))
+	brr := NewBalanceRR("sc")
+	brr.Init(confC05(0, n))
+	thr := vrt.Range("failthreshold", 1, 2)
+	for step := 0; step < vrt.Param("K", 3); step++ {
+		b := brr.backends[vrt.Choose("backend", n)].backend
+		switch vrt.Choose("event", 3) {
+		case 0:
+			b.AddFailNum()
+			b.UpdateStatus(thr)
+			vrt.Cover("C05/failreport-returns")
+		case 1:
+			b.OnSuccess()
+		case 2:
+			b.SetRestart(true)
+			b.SetAvail(true)
+		}
+	}
+	algo := vrt.Choose("algo", 5)
+	var key []byte
+	if algo == WrrSticky {
+		key = vrt.Bytes("key", 2)
+	}
+	got, err := brr.Balance(algo, key)
+	vrt.Assert(err != nil || got != nil, "C05/returns-backend-or-error-after-failreports")
+}
+
+// VerifC05_slowstart_simple: slow start on and WrrSimple (the algorithm with the reset-and-rescan
+// loop): backends that just came up (restart flag) ramp from weight 1 through the truncated
+// final*elapsed/slowStartTime, which is 0 right after the start; K consecutive selections at any
+// instants return inside the loop bound. Conf weights are concrete (1 or 3) so that the ramp is a
+// product/quotient by constants; the clock is symbolic, non-decreasing, within 2^CLOCK_BITS ns.
+func VerifC05_slowstart_simple() {
+	n := vrt.Range("n", 1, vrt.Param("N", 2))
+	var conf cluster_table_conf.SubClusterBackend
+	for i := 0; i < n; i++ {
+		name, addr, port := "b", addrsC05[i], 80
+		wt := 1 + 2*vrt.Choose("w3", 2)
+		conf = append(conf, &cluster_table_conf.BackendConf{Name: &name, Addr: &addr, Port: &port, Weight: &wt})
+	}
+	brr := NewBalanceRR("sc")
+	brr.Init(conf)
+	brr.SetSlowStart(vrt.Range("sstime", 1, 2))
+	// RAMPS backends (default 1) may have just come up; the others are steady, up or down. (Two
+	// simultaneous ramps give the solver two 64-bit quotients per query: tried, minutes per query.)
+	for i := 0; i < n; i++ {
+		if i < vrt.Param("RAMPS", 1) {
+			brr.backends[i].backend.SetRestart(vrt.Choose("restarted", 2) == 1)
+		} else {
+			brr.backends[i].backend.SetAvail(vrt.Choose("up", 2) == 1)
+		}
+	}
+	for step := 0; step < vrt.Param("K", 2); step++ {
+		b, err := brr.Balance(WrrSimple, nil)
+		vrt.Assert(err != nil || b != nil, "C05/slowstart-simple-returns-backend-or-error")
+	}
+}
